@@ -59,14 +59,15 @@ def generate(seed, run, tier):
     for _ in range(n):
         op = sched.gen_base_op(cfg, rs, enabled, swarm)
         if op['op'] == 'perturb_arch':
-            op['style'] = 'gap'
+            op['style'] = rs.choice(['gap', 'gap', 'gap_large'])
             op['write'] = rs.choice(['copy', 'copy', 'data', 'data_copy'])
         if rs.chance(p_observer):
             # summary / export / cost reads happen at arbitrary moments of a search (e.g. between eval()
             # and the first eval forward)
             ops.append({'op': rs.choice(['export', 'summary', 'cost', 'export'])})
         if op['op'] == 'softmax_opts':
-            kw = {'temperature': round(rs.loguniform(0.05, 20.0), 4), 'hard': rs.chance(0.5)}
+            kw = {'temperature': rs.choice([0.05, 20.0]) if rs.chance(0.2) else round(rs.loguniform(0.05, 20.0), 4),
+                  'hard': rs.chance(0.5)}
             if cfg['method'] == 'mps':
                 kw['gumbel'] = rs.chance(0.4)
                 kw['disable_sampling'] = rs.chance(0.15)
